@@ -10,7 +10,9 @@ use std::collections::BTreeMap;
 use mithril_common::crypto_helper::{
     GenesisVerifier, ProtocolAggregateVerificationKeyForConcatenation,
 };
-use mithril_common::entities::{Certificate, CertificateSignature, ProtocolMessagePartKey};
+use mithril_common::entities::{
+    Certificate, CertificateSignature, ProtocolMessagePartKey, ProtocolParameters,
+};
 
 #[derive(Clone, Debug, PartialEq)]
 pub struct Broken {
@@ -124,10 +126,10 @@ impl Oracle {
     fn link(&self, c: &Certificate, p: &Certificate) -> Result<(), (&'static str, String)> {
         match link_shape(*c.epoch, *p.epoch) {
             LinkShape::SameEpoch => {
-                if p.aggregate_verification_key != c.aggregate_verification_key {
+                if !same_key(&p.aggregate_verification_key, &c.aggregate_verification_key) {
                     return Err(("same-epoch-key", "same epoch but a different aggregate key".into()));
                 }
-                if p.metadata.protocol_parameters != c.metadata.protocol_parameters {
+                if !same_parameters(&p.metadata.protocol_parameters, &c.metadata.protocol_parameters) {
                     return Err(("same-epoch-parameters", "same epoch but different parameters".into()));
                 }
                 Ok(())
@@ -137,7 +139,7 @@ impl Oracle {
                     .protocol_message
                     .get_message_part(&ProtocolMessagePartKey::NextAggregateVerificationKey)
                     .and_then(|s| ProtocolAggregateVerificationKeyForConcatenation::try_from(s.as_str()).ok());
-                if committed_key.as_ref() != Some(&c.aggregate_verification_key) {
+                if !committed_key.as_ref().is_some_and(|k| same_key(k, &c.aggregate_verification_key)) {
                     return Err(("previous-epoch-key", "the previous-epoch certificate does not commit to this aggregate key".into()));
                 }
                 let committed_params =
@@ -190,6 +192,22 @@ impl Oracle {
             }
         }
     }
+}
+
+/// "The same aggregate key" = the same serialised key: Merkle commitment AND total stake. Compared
+/// on the canonical encoding, never through the repository's `PartialEq` (a judged component).
+fn same_key(
+    a: &ProtocolAggregateVerificationKeyForConcatenation,
+    b: &ProtocolAggregateVerificationKeyForConcatenation,
+) -> bool {
+    match (a.to_json_hex(), b.to_json_hex()) {
+        (Ok(x), Ok(y)) => x == y,
+        _ => false,
+    }
+}
+
+fn same_parameters(a: &ProtocolParameters, b: &ProtocolParameters) -> bool {
+    a.k == b.k && a.m == b.m && a.phi_f.to_bits() == b.phi_f.to_bits()
 }
 
 pub fn short(h: &str) -> String {
